@@ -143,6 +143,55 @@ pub fn check_term(s: &mut Sess, rep: &mut Report, t: RegLan, k: usize, small_pro
         return;
     }
     let count = items.len();
+    // the iterator obeys the iterator laws: same sequence again, count, nth, last, the rest after partial consumption
+    if count <= 300 {
+        rep.inc("iterator_law_checks");
+        fn ptr(x: &aws_smt_strings::regular_expressions::RE) -> usize {
+            x as *const aws_smt_strings::regular_expressions::RE as usize
+        }
+        let want: Vec<_> = items.iter().map(|&x| ptr(x)).collect();
+        let r = guard(|| -> Result<(), String> {
+            let again: Vec<_> = s.m.iter_derivatives(t).map(ptr).collect();
+            if again != want {
+                return Err("a second enumeration yields a different sequence".into());
+            }
+            if s.m.iter_derivatives(t).count() != count {
+                return Err("count() differs from the number of items yielded".into());
+            }
+            let mut it = s.m.iter_derivatives(t);
+            for used in 0..=count {
+                if it.next().map(ptr) != want.get(used).copied() {
+                    return Err(format!("item {} differs", used));
+                }
+            }
+            drop(it);
+            for k in [0, count / 2, count - 1, count] {
+                if s.m.iter_derivatives(t).nth(k).map(ptr) != want.get(k).copied() {
+                    return Err(format!("nth({}) is not item {}", k, k));
+                }
+                let mut it = s.m.iter_derivatives(t);
+                let _ = it.nth(k);
+                if it.count() != count.saturating_sub(k + 1) {
+                    return Err(format!("after nth({}) the rest does not have {} items", k, count.saturating_sub(k + 1)));
+                }
+            }
+            if s.m.iter_derivatives(t).last().map(ptr) != want.last().copied() {
+                return Err("last() is not the last item".into());
+            }
+            Ok(())
+        });
+        match r {
+            Ok(Ok(())) => {}
+            Ok(Err(e)) => {
+                s.viol(rep, "closure", "closure:iterator", format!("iter_derivatives({}): {}", term_text(t), e), k);
+                return;
+            }
+            Err(msg) => {
+                s.viol(rep, "closure", "closure:panic", format!("iter_derivatives({}) panicked in an iterator adaptor: {}", term_text(t), msg), k);
+                return;
+            }
+        }
+    }
     // the Myhill-Nerode index is a lower bound for the number of distinct derivatives
     if let Ok(d) = s.ctx.term_dfa(t) {
         if count < d.n() {
